@@ -121,6 +121,26 @@ func runIDs(e *Env) {
 		}
 		preOwned[i%nTasks] = append(preOwned[i%nTasks], id)
 	}
+	// a few pre-filled ids are released by TWO tasks (a concurrent double release): exactly
+	// one of the two calls may report that the id was in use
+	shared := map[int][]bool{}
+	var sharedIDs []int
+	if len(pre) > 2*nTasks && nTasks >= 2 && tp.Chance(1, 2) {
+		for i := 0; i < 1+tp.Next(2) && 2*nTasks+i < len(pre); i++ {
+			sharedIDs = append(sharedIDs, pre[2*nTasks+i])
+		}
+		k.Fault("ids.concurrent-double-release")
+		// "double release is harmless" presupposes that the id is not handed out again
+		// between the two releases (else the second one releases somebody else's id):
+		// runs with shared ids acquire nothing
+		for t := range scripts {
+			for i, op := range scripts[t] {
+				if op == 0 {
+					scripts[t][i] = 2
+				}
+			}
+		}
+	}
 	streams.VerifHook = func(point string) { k.Yield(point, "") }
 	defer func() { streams.VerifHook = nil }()
 	k.ParkAll = true
@@ -132,6 +152,27 @@ func runIDs(e *Env) {
 		name := fmt.Sprintf("g%d", ti)
 		k.Spawn(name, func(t *kernel.Task) {
 			var mine []int
+			if ti < 2 {
+				for _, id := range sharedIDs {
+					if !t.Step("clear-shared") {
+						return
+					}
+					mu.Lock()
+					delete(prefilled, id)
+					mu.Unlock()
+					inv := k.Step()
+					ok := g.Clear(id)
+					mu.Lock()
+					shared[id] = append(shared[id], ok)
+					if iv := inuse[id]; len(iv) > 0 && (iv[len(iv)-1].to == -1 || iv[len(iv)-1].to < k.Step()) {
+						iv[len(iv)-1].to = k.Step()
+					}
+					mu.Unlock()
+					_ = inv
+					k.Rec("%s clear-shared %d -> %v", name, id, ok)
+					k.OpDone()
+				}
+			}
 			for _, op := range scripts[ti] {
 				switch {
 				case op == 0:
@@ -220,6 +261,22 @@ func runIDs(e *Env) {
 				return
 			}
 		}
+	}
+	// (d') concurrent double release: of the two releases of a shared id exactly one saw it
+	// in use (unless it was handed out again in between, in which case at most two)
+	for id, res := range shared {
+		trues := 0
+		for _, ok := range res {
+			if ok {
+				trues++
+			}
+		}
+		reacquired := len(inuse[id]) > 1
+		if trues == 0 || (trues > 1 && !reacquired) {
+			k.Violate("C08", "C08/double-release-miscounted", "id %d was released by two callers at once: results %v (exactly one may report that the id was in use)", id, res)
+			return
+		}
+		k.Probe("concurrent-double-release-checked")
 	}
 	// (e) available count at quiescence
 	want := capN - 1 - len(held) - len(prefilled)
